@@ -120,12 +120,6 @@ func Env(tables map[string]*Table) physical.Environment {
 
 // Plan parses and typechecks; it returns the physical plan before optimisation.
 func Plan(sql string, env physical.Environment) (plan physical.Node, mapping map[string]string, opts *parser.OutputOptions, res Result) {
-	defer func() {
-		if p := recover(); p != nil {
-			// cmd/root.go turns typecheck panics into "typecheck error: ..." the same way
-			res = Result{Stage: "typecheck", Err: fmt.Sprint(p)}
-		}
-	}()
 	stmt, err := sqlparser.Parse(sql)
 	if err != nil {
 		return plan, nil, nil, Result{Stage: "parse", Err: err.Error()}
@@ -134,17 +128,25 @@ func Plan(sql string, env physical.Environment) (plan physical.Node, mapping map
 	if !ok {
 		return plan, nil, nil, Result{Stage: "parse", Err: "only SELECT statements are supported"}
 	}
-	lp, oo, err := parser.ParseNode(sel)
+	lp, oo, err := parser.ParseNode(sel) // a panic here is a crash of the CLI (no recover around it in cmd/root.go)
 	if err != nil {
 		return plan, nil, nil, Result{Stage: "parse", Err: err.Error()}
 	}
 	gen := map[string]int{}
-	plan, mapping = lp.Typecheck(context.Background(), env, logical.Environment{
-		CommonTableExpressions: map[string]logical.CommonTableExpression{},
-		TableValuedFunctions:   tvfs,
-		UniqueNameGenerator:    gen,
-	})
-	return plan, mapping, oo, Result{}
+	func() {
+		defer func() {
+			if p := recover(); p != nil {
+				// cmd/root.go typecheckNode turns typecheck panics into "typecheck error: ..." the same way
+				res = Result{Stage: "typecheck", Err: fmt.Sprint(p)}
+			}
+		}()
+		plan, mapping = lp.Typecheck(context.Background(), env, logical.Environment{
+			CommonTableExpressions: map[string]logical.CommonTableExpression{},
+			TableValuedFunctions:   tvfs,
+			UniqueNameGenerator:    gen,
+		})
+	}()
+	return plan, mapping, oo, res
 }
 
 // Run executes the query like `octosql -o json` would and returns the records in emission order.
@@ -181,6 +183,9 @@ func Run(sql string, tables map[string]*Table, optimize bool) (res Result) {
 	var limit *physical.Expression
 	if oo.Limit != nil {
 		l := typecheckExpr(*oo.Limit)
+		if tcErr == "" && len(l.VariablesUsed()) > 0 {
+			return Result{Stage: "typecheck", Err: "limit expression must not reference record fields"} // as cmd/root.go
+		}
 		limit = &l
 	}
 	if tcErr != "" {
